@@ -496,6 +496,28 @@ Example srcset_nonvacuous :
 Proof. vm_compute. repeat split; reflexivity. Qed.
 
 (* ---------------------------------------------------------------------------------------
+   reddit.ExtractAPIPostPermalinks: Children[0] is guarded by the length of Children itself *)
+Theorem reddit_permalinks_never_panics_lemma :
+  forall decoded, exists r, reddit_permalinks decoded = Ok r.
+Proof.
+  intros [[dist children]|]; unfold reddit_permalinks, reddit_permalinks_g; [|eauto].
+  destruct (len children =? 0) eqn:E; [eauto|].
+  pose proof (len_nonneg children).
+  destruct (index_ok children 0) as [p Hp]; try lia. rewrite Hp. cbn [bind]. eauto.
+Qed.
+
+(* guarding by the listing's own counter instead is a crash: dist = 1 with no children *)
+Lemma reddit_permalinks_by_dist_refuted :
+  exists decoded, reddit_permalinks_g true decoded = Panic.
+Proof. exists (Some (1, [])). reflexivity. Qed.
+
+Example reddit_permalinks_nonvacuous :
+  reddit_permalinks (Some (1, [bs "/r/x/comments/1/t/"])) =
+    Ok (Some [bs "https://www.reddit.com/r/x/comments/1/t/"; bs "https://old.reddit.com/r/x/comments/1/t/"])
+  /\ reddit_permalinks (Some (5, [])) = Ok None /\ reddit_permalinks None = Ok None.
+Proof. vm_compute. repeat split; reflexivity. Qed.
+
+(* ---------------------------------------------------------------------------------------
    ina.extractJWPlayerVersion CAN panic (index 1 of a one-element Split); the function has no
    caller in the pipeline *)
 Lemma jwplayer_version_refuted : exists body, jwplayer_version body = Panic.
